@@ -62,7 +62,6 @@ func c07Setup() error {
 		casket.Quiet = true
 		// the graceful period of every server this stream creates: short, so that a request can outlive it (L: operations)
 		httpserver.GracefulTimeout = 300 * time.Millisecond
-		c07.portCur = 20000 + (os.Getpid()*53)%9000
 	}
 	log.SetOutput(io.Discard)
 	dir, err := os.MkdirTemp("", "verif-c07-")
@@ -70,7 +69,7 @@ func c07Setup() error {
 		return err
 	}
 	c07.dir = dir
-	c07.p3 = c07FreePort()
+	c07.p3 = c07BusyPort.reserve(false) // held (locked and bound) for the whole run
 	ln, err := net.Listen("tcp", fmt.Sprintf("127.0.0.1:%d", c07.p3))
 	if err != nil {
 		return err
@@ -86,23 +85,14 @@ func c07Teardown() {
 		c07.busy.Close()
 		c07.busy = nil
 	}
+	c07BusyPort.release()
+	c07Ports.release()
 	os.RemoveAll(c07.dir)
 }
 
-func c07FreePort() int {
-	for i := 0; i < 20000; i++ {
-		c07.portCur++
-		if c07.portCur >= 32000 {
-			c07.portCur = 20000
-		}
-		ln, err := net.Listen("tcp", fmt.Sprintf("127.0.0.1:%d", c07.portCur))
-		if err == nil {
-			ln.Close()
-			return c07.portCur
-		}
-	}
-	panic("no free port")
-}
+var c07Ports, c07BusyPort verifPorts
+
+func c07FreePort() int { return c07Ports.reserve(false) }
 
 type c07Kind struct {
 	addrs []int
@@ -332,6 +322,7 @@ func c07Eval(f []string) (string, []string) {
 		ops = append(ops, op{s[0] == 'T', s[0] == 'L', k})
 	}
 	var p [4]int
+	c07Ports.release()
 	p[1], p[2], p[3] = c07FreePort(), c07FreePort(), c07.p3
 	tags := map[string]bool{}
 	obs := &c07Obs{}
@@ -545,6 +536,7 @@ func c07Storm(rng *hx.Rng, nReloads, clients int) (kinds, reloads, requests stri
 	casket.Stop()
 	casket.VerifC08ResetInstances()
 	var p [4]int
+	c07Ports.release()
 	p[1], p[2], p[3] = c07FreePort(), c07FreePort(), c07.p3
 	k0, _ := c07ParseKind("1")
 	if _, err := casket.Start(c07Input(k0, 1, p)); err != nil {
